@@ -144,68 +144,7 @@ def stepOld (st : Static) (g : GState) : OpR → GState
   | .remove m => step st g (.remove m)
   | .extract gone => addGlueOld st g gone
 
-/-! ### Concurrency: the installation routine as atomic steps of several threads
-
-Each pop is a single dict operation (atomic under the GIL); a glue call is not.  The lock is modelled
-too, but the exactly-once theorem does not need it. -/
-
-inductive PC
-  | idle                       -- not in add_glue_as_needed
-  | fast                       -- about to do the len == cache test
-  | wantLock
-  | scan (todo : List Mod) (total : Nat)      -- holds the lock; `todo` = names still to visit
-  | popped (m : Mod) (b : Bool) (mf : Bool) (todo : List Mod) (total : Nat)  -- both pops done, glue call pending
-  deriving DecidableEq, Repr
-
-structure CState where
-  g : GState
-  lock : Option Nat            -- thread holding glue_lock
-  pcs : List PC                -- one per thread
-  deriving Repr
-
-def setPC (pcs : List PC) (t : Nat) (p : PC) : List PC := pcs.set t p
-
-/-- One atomic step of thread `t` (no-op if `t` cannot move). -/
-def cstep (st : Static) (c : CState) (t : Nat) : CState :=
-  match c.pcs[t]? with
-  | none => c
-  | some .idle => { c with pcs := setPC c.pcs t .fast }
-  | some .fast =>
-    if c.g.present.length == c.g.cache then
-      { c with g := { c.g with log := c.g.log ++ [.returned] }, pcs := setPC c.pcs t .idle }
-    else { c with pcs := setPC c.pcs t .wantLock }
-  | some .wantLock =>
-    match c.lock with
-    | some _ => c                                   -- blocked
-    | none => { c with lock := some t, pcs := setPC c.pcs t (.scan c.g.present c.g.present.length) }
-  | some (.scan [] total) =>
-    { c with g := { c.g with cache := total, log := c.g.log ++ [.returned] }, lock := none, pcs := setPC c.pcs t .idle }
-  | some (.scan (m :: todo) total) =>
-    let b := st.hasBuiltin m && !c.g.builtinPopped.contains m
-    let mf := c.g.present.contains m && st.hasModGlue m && !c.g.modPopped.contains m
-    { c with g := { c.g with builtinPopped := if b then m :: c.g.builtinPopped else c.g.builtinPopped,
-                              modPopped := if mf then m :: c.g.modPopped else c.g.modPopped },
-             pcs := setPC c.pcs t (.popped m b mf todo total) }
-  | some (.popped m b mf todo total) =>
-    let evs : List Ev :=
-      if mf then [.ranMod m] ++ (if st.modRaises m then [.warn m] else [])
-      else if b then [.ranBuiltin m] ++ (if st.builtinRaises m then [.warn m] else [])
-      else []
-    { c with g := { c.g with log := c.g.log ++ evs }, pcs := setPC c.pcs t (.scan todo total) }
-
-/-- Environment moves (imports happening on any thread) interleaved with thread steps. -/
-inductive CMove
-  | thread (t : Nat)
-  | insert (m : Mod)
-  | remove (m : Mod)
-  deriving DecidableEq, Repr
-
-def cmove (st : Static) (c : CState) : CMove → CState
-  | .thread t => cstep st c t
-  | .insert m => { c with g := step st c.g (.insert m) }
-  | .remove m => { c with g := step st c.g (.remove m) }
-
-def crun (st : Static) (n : Nat) (sched : List CMove) : CState :=
-  sched.foldl (cmove st) ⟨GState.init, none, List.replicate n .idle⟩
+/-! The concurrent version of the routine (several threads, lock, per-thread program counters) is in
+`SSModel/GlueConc.lean`. -/
 
 end SS.Glue
